@@ -23,6 +23,9 @@ import (
 type Layer struct {
 	T string `json:"t"` // prefix | gas | trace | cache
 	P Bz     `json:"p"`
+	// spare capacity of the prefix slice handed to prefix.NewStore: callers such as types/param.go build
+	// their prefix with append(name, '/') on a slice with room to grow, so cap > len is the normal case
+	Cap int `json:"cap"`
 }
 
 type MeterCfg struct {
@@ -99,7 +102,9 @@ func runWrap(p *WrapProgram) (out WrapResult) {
 	for i := len(p.Stack) - 1; i >= 0; i-- {
 		switch l := p.Stack[i]; l.T {
 		case "prefix":
-			cur = prefix.NewStore(cur, []byte(l.P))
+			pb := make([]byte, len(l.P), len(l.P)+l.Cap)
+			copy(pb, l.P)
+			cur = prefix.NewStore(cur, pb)
 		case "gas":
 			cur = gaskv.NewStore(cur, meter, types.KVGasConfig())
 		case "trace":
